@@ -3,6 +3,8 @@
 mod builder;
 pub mod iter;
 mod mapper;
+#[cfg(daachorse_verif)]
+pub mod verif;
 
 use core::mem;
 use core::num::NonZeroU32;
@@ -720,13 +722,19 @@ impl<V> CharwiseDoubleArrayAhoCorasick<V> {
     #[inline(always)]
     unsafe fn next_state_id_unchecked(&self, mut state_id: u32, c: char) -> u32 {
         if let Some(mapped_c) = self.mapper.get(c) {
+            #[cfg(daachorse_verif)]
+            crate::verif_hooks::enter();
             loop {
+                #[cfg(daachorse_verif)]
+                crate::verif_hooks::probe();
                 if let Some(state_id) = self.child_index_unchecked(state_id, mapped_c) {
                     return state_id;
                 }
                 if state_id == ROOT_STATE_IDX {
                     return ROOT_STATE_IDX;
                 }
+                #[cfg(daachorse_verif)]
+                crate::verif_hooks::hop();
                 state_id = self.states.get_unchecked(usize::from_u32(state_id)).fail();
             }
         } else {
@@ -740,7 +748,11 @@ impl<V> CharwiseDoubleArrayAhoCorasick<V> {
     #[inline(always)]
     unsafe fn next_state_id_leftmost_unchecked(&self, mut state_id: u32, c: char) -> u32 {
         if let Some(mapped_c) = self.mapper.get(c) {
+            #[cfg(daachorse_verif)]
+            crate::verif_hooks::enter();
             loop {
+                #[cfg(daachorse_verif)]
+                crate::verif_hooks::probe();
                 if let Some(state_id) = self.child_index_unchecked(state_id, mapped_c) {
                     return state_id;
                 }
@@ -751,6 +763,8 @@ impl<V> CharwiseDoubleArrayAhoCorasick<V> {
                 if fail_id == DEAD_STATE_IDX {
                     return ROOT_STATE_IDX;
                 }
+                #[cfg(daachorse_verif)]
+                crate::verif_hooks::hop();
                 state_id = fail_id;
             }
         } else {
